@@ -20,13 +20,20 @@ SharedTexts == <<
      Tk("Id", "regexp"), OpK("("), Tk("Id", "s2"), OpK(","), Tk("Str", <<94,40,97,41,42,36>>), OpK(")"), OpK(","),
      Tk("Id", "regexp"), OpK("("), Tk("Id", "s2"), OpK(","), Tk("Str", <<97,98>>), OpK(")"), OpK("]") >>,
   \* (m).a + b : evaluates, but the field analysis refuses it (the error path of the analysis on a shared tree)
-  << OpK("("), Tk("Id", "m"), OpK(")"), OpK("."), Tk("Id", "a"), OpK("+"), Tk("Id", "b") >> >>
+  << OpK("("), Tk("Id", "m"), OpK(")"), OpK("."), Tk("Id", "a"), OpK("+"), Tk("Id", "b") >>,
+  \* round(a) * 1000 + roundBank(b) (a not a tie, b an exact tie): two rounding modes in flight in every evaluation
+  << Tk("Id", "round"), OpK("("), Tk("Id", "a"), OpK(")"), OpK("*"), Tk("Num", <<FALSE, <<1>>, 3>>), OpK("+"),
+     Tk("Id", "roundBank"), OpK("("), Tk("Id", "b"), OpK(")") >>,
+  \* two formulas with exactly one referenced field each
+  << Tk("Id", "round"), OpK("("), Tk("Id", "a"), OpK(")"), OpK("+"), Tk("Num", <<FALSE, <<1>>, 0>>) >>,
+  << Tk("Id", "lower"), OpK("("), Tk("Id", "s1"), OpK(")") >> >>
 Datas == << [a |-> <<"int", 1>>, b |-> <<"int", 2>>],
             [a |-> <<"dec", FALSE, <<1>>, 1>>, b |-> <<"f64", FALSE, <<5>>, -1>>],
             [a |-> <<"int64", FALSE, <<9,0,0,7,1,9,9,2,5,4,7,4,0,9,9,3>>>>, b |-> <<"int", -3>>],
             [s1 |-> <<"str", <<99,97,98>>>>, s2 |-> <<"str", <<97,97,97>>>>],
             [s1 |-> <<"str", <<98,97>>>>, s2 |-> <<"str", <<97,98>>>>],
-            [m |-> <<"map", [a |-> <<"int", 4>>]>>, b |-> <<"dec", FALSE, <<1,5>>, -1>>] >>
+            [m |-> <<"map", [a |-> <<"int", 4>>]>>, b |-> <<"dec", FALSE, <<1,5>>, -1>>],
+            [a |-> <<"dec", FALSE, <<2,6>>, -1>>, b |-> <<"dec", FALSE, <<4,5>>, -1>>] >>
 \* texts (bytes) that other goroutines parse meanwhile: escapes, long literals, a rejected one
 ParseTexts == << <<39,92,117,52,70,49,49,92,117,52,70,51,52,39,43,39,92,120,52,49,39>>,      \* '\u4F11\u4F34'+'\x41'
                  <<39,92,117,48,48,52,49,92,120,54,50,92,117,52,101,50,100,39>>,            \* '\u0041\x62\u4e2d'
